@@ -17,6 +17,7 @@ import json
 import os
 import re
 import string
+from concurrent.futures import ThreadPoolExecutor
 
 from . import tlc
 from .common import REPO, Hang, MachineryError, watchdog
@@ -478,13 +479,13 @@ class Checker:
         if not diffs:
             for i, (si, fi, txi) in enumerate(zip(s['ins'], case['fields']['ins'], ptx.inputs)):
                 want_hash, want_script = render(fi['hash'], blobs), render(fi['script'], blobs)
-                chk(f'in.hash', txi.txo_ref.tx_ref.hash, want_hash)
-                chk(f'in.position', txi.txo_ref.position, unlimbs(si['pos']))
-                chk(f'in.sequence', txi.sequence, unlimbs(si['sq']))
-                chk(f'in.coinbase', txi.is_coinbase, want_hash == NULL32)
+                chk('in.hash', txi.txo_ref.tx_ref.hash, want_hash)
+                chk('in.position', txi.txo_ref.position, unlimbs(si['pos']))
+                chk('in.sequence', txi.sequence, unlimbs(si['sq']))
+                chk('in.coinbase', txi.is_coinbase, want_hash == NULL32)
                 got_script = txi.coinbase if txi.is_coinbase else txi.script.source
-                chk(f'in.script', got_script, want_script)
-                chk(f'in.index', txi.position, i)
+                chk('in.script', got_script, want_script)
+                chk('in.index', txi.position, i)
                 if si['k'] in ('p2pkh', 'spend') and s.get('src') != 'mainnet' and got_script == want_script and not txi.is_coinbase:
                     r = case['ins'][i]
                     chk('in.script.template', txi.script.template.name, 'pubkey_hash')
@@ -601,7 +602,7 @@ def run(ctx):
     lib = Lib()
     purchase = len(lib.Purchase('ab' * 20).to_bytes())
     # ---- shapes handed to TLC
-    nrand = 2500 if ctx.thorough else 150
+    nrand = 12000 if ctx.thorough else 700
     given, mainnet = [], {}
     for g in range(nrand):
         given.append(rand_shape(ctx.rng, g, purchase))
@@ -618,44 +619,62 @@ def run(ctx):
             continue
         given.append(shape)
         mainnet[gid] = {'name': name, 'raw': raw, 'id': rid, 'blobs': blobs, 'tx': tx}
-    gfile = os.path.join(ctx.mkdir('given'), 'given.json')
-    with open(gfile, 'w') as f:
-        json.dump(given, f)
-
-    # ---- TLC: laws on the model + emission of every case
+    # ---- TLC: laws on the model + emission of every case. Emission needs one worker per TLC process, so the case space
+    # is split over several concurrent TLC processes (disjoint families / chunks of the given shapes).
     counts = {1, 2, 3, 252, 253, 254, 299, 300} if ctx.thorough else {1, 2, 252, 253, 300}
-    consts = {'FAMILIES': set(FAMILIES), 'COUNTS': counts, 'PURCHASE': purchase, 'EMIT': True}
-    cfg = tlc.make_cfg(constants=consts, invariants=INVS, constraint='Emit')
-    res = tlc.run('TxWire', cfg, ctx, workers=1, coverage=False, timeout=3000, label='TxWire-emit', env={'GIVEN_FILE': gfile})
-    ctx.add_tlc(res, f'TxWire: every case of families {FAMILIES} (COUNTS={sorted(counts)}, {len(given)} given shapes); '
-                     f'Leg A invariants {INVS} + emission')
-    if res.violated:
-        ctx.violation('model:' + ','.join(res.violated), 'specification law violated in the model', res.error_trace[:4000])
+    consts = {'COUNTS': counts, 'PURCHASE': purchase, 'EMIT': True}
+    jobs = [('counts', {'counts'}, None), ('values', {'values'}, None), ('bounds', {'prim', 'scriptlen', 'witness'}, None)]
+    gdir, chunk = ctx.mkdir('given'), 250
+    for k in range(0, len(given), chunk):
+        gfile = os.path.join(gdir, f'given-{k}.json')
+        with open(gfile, 'w') as f:
+            json.dump(given[k:k + chunk], f)
+        jobs.append((f'given-{k}', {'given'}, gfile))
+
+    def model(job):
+        name, fams, gfile = job
+        cfg = tlc.make_cfg(constants=dict(consts, FAMILIES=fams), invariants=INVS, constraint='Emit')
+        res = tlc.run('TxWire', cfg, ctx, workers=1, coverage=False, timeout=3000, label=f'TxWire-{name}',
+                      env={'GIVEN_FILE': gfile} if gfile else None)
+        cases = [] if res.violated else tlc.printed_json(res, 'CASE')
+        res.out, res.printed = res.out[-4000:], []
+        return name, fams, res, cases
+
+    chk = Checker(ctx, lib)
+    by_fam = {f: 0 for f in FAMILIES}
+    ncases = nseg = 0
+    with ThreadPoolExecutor(max_workers=8) as ex:
+        for name, fams, res, cases in ex.map(model, jobs):
+            ctx.add_tlc(res, f'TxWire families {sorted(fams)} [{name}] COUNTS={sorted(counts)}: Leg A invariants {INVS} + emission')
+            if res.violated:
+                ctx.violation('model:' + ','.join(res.violated), 'specification law violated in the model', res.error_trace[:4000])
+                continue
+            if len(cases) != res.distinct or not res.ok:
+                raise MachineryError(f'{name}: emitted {len(cases)} cases but TLC found {res.distinct} distinct states '
+                                     f'(finished={res.finished})')
+            # ---- Leg B: every case against the real code
+            for c in cases:
+                by_fam[c['fam']] += 1
+                ncases += 1
+                if c['fam'] == 'prim':
+                    chk.prim(c)
+                    continue
+                nseg += c['shape']['segwit']
+                if c['shape'].get('src') == 'mainnet':
+                    chk.tx(c, mainnet[c['shape']['gid']])
+                else:
+                    chk.tx(c)
+    if any(v['key'].startswith('model:') for v in ctx.violations):
         return
-    cases = tlc.printed_json(res, 'CASE')
-    if len(cases) != res.distinct or not res.ok:
-        raise MachineryError(f'emitted {len(cases)} cases but TLC found {res.distinct} distinct states (finished={res.finished})')
-    by_fam = {f: sum(1 for c in cases if c['fam'] == f) for f in FAMILIES}
     # vacuity guards for the `IsTx => ...` / `~IsTx => ...` invariants and the segwit branches: every family is inhabited
     if min(by_fam.values()) == 0 or by_fam['given'] != len(given):
         raise MachineryError(f'vacuous enumeration: cases per family {by_fam}, given {len(given)}')
-    nseg = sum(1 for c in cases if c['fam'] != 'prim' and c['shape']['segwit'])
-    if nseg == 0 or nseg == len(cases) - by_fam['prim']:
+    if nseg == 0 or nseg == ncases - by_fam['prim']:
         raise MachineryError('vacuous enumeration: segwit / legacy cases missing')
-
-    # ---- Leg B: every case against the real code
-    chk = Checker(ctx, lib)
-    for c in cases:
-        if c['fam'] == 'prim':
-            chk.prim(c)
-        elif c['shape'].get('src') == 'mainnet':
-            chk.tx(c, mainnet[c['shape']['gid']])
-        else:
-            chk.tx(c)
     want_in, want_out = {'spend', 'p2pkh', 'coinbase', 'opaque'}, set(OUT_TEMPLATE) | {'opaque'}
     if chk.kinds_in != want_in or chk.kinds_out != want_out:
         raise MachineryError(f'script kinds not all exercised: {chk.kinds_in} {chk.kinds_out}')
-    ctx.cov['traces_validated_against_impl'] = len(cases)
+    ctx.cov['traces_validated_against_impl'] = ncases
     ctx.cov['exhaustive'] = True
     ctx.cov['rule'] = (
         'every TLC state of TxWire.tla is one case. prim: compact size / uint16/32/64 of limb values 0..3, 250..258, 65533..65538, '
@@ -664,10 +683,12 @@ def run(ctx):
         'inputs x outputs, legacy and segwit, script kinds cycling by position. scriptlen: for every script kind every payload at '
         'each push-data prefix boundary and every payload length (solved for in TLA+) that puts the script length on 252..254 / '
         '65535..65537. witness: all pairs of 12 stacks (0..300 items, item lengths 0..65536). given: seeded random shapes and the '
-        'real transactions of the upstream test module. Distinct = distinct TLC states x {built, parsed legacy, parsed segwit}; '
+        'real transactions of the upstream test module (a sample, not exhaustive; all other families are enumerated completely). '
+        'Transactions are built in steps with size/id reads in between. Distinct = distinct TLC states x {built, parsed legacy, parsed segwit}; '
         'non-trivial = all but primitive values below 253.')
     ctx.leg('A', invariants=INVS, cases_per_family=by_fam, segwit_cases=nseg)
     ctx.leg('B', constants={k: sorted(v) if isinstance(v, set) else v for k, v in consts.items()}, random_shapes=nrand,
+            tlc_processes=len(jobs),
             mainnet_transactions=chk.n['mainnet'], mainnet_ids_recorded_upstream=chk.n['mainnet_ids'],
             mainnet_segwit=sum(1 for m in mainnet.values() if m['tx'].is_segwit_flag),
             primitive_cases=chk.n['prim'], built_through_constructors=chk.n['built'],
